@@ -66,8 +66,11 @@ def specs_from(seq):
             for k, (n, t, c) in enumerate(seq)]
 
 
-def cycles_checks(specs, cycles, perm):
-    """partition / exclusivity / order-without-permutation on a cycles list of the real code"""
+def cycles_checks(specs, cycles, perm, cons=None):
+    """partition / exclusivity / order-without-permutation on a cycles list of the real code.  `cons`: the constraint
+    descriptors the Scheduler was built with (None = default): exclusivity is required when `qubit_constraint` is among
+    them (first, last, anywhere); for every list, inside a cycle (in the returned order) every later member must have been
+    allowed against every earlier member by EVERY constraint function (verdicts evaluated on the specs)."""
     n = len(specs)
     flat = [i for c in cycles for i in c]
     if sorted(flat) != list(range(n)):
@@ -79,8 +82,13 @@ def cycles_checks(specs, cycles, perm):
     used = [sc.used_of(s) for s in specs]
     for c in cycles:
         for a, b in itertools.combinations(c, 2):
-            if used[a] & used[b]:
-                return f"gates {a} and {b} share a qubit inside one cycle ({cycles})"
+            if sc.cons_has_qubit(cons) and used[a] & used[b]:
+                return f"gates {a} and {b} share a qubit inside one cycle ({cycles})" + (
+                    f" although qubit_constraint is among the constraint functions {cons}" if cons is not None else "")
+            for f in (cons or []):
+                if not sc.cons_verdict(f, specs, b, a):
+                    return (f"gates {a} and {b} are in one cycle ({cycles}) although the constraint function {f} of {cons} "
+                            f"forbids {b} next to {a}")
     if not perm:
         for i in range(n):
             for j in range(i + 1, n):
@@ -132,6 +140,17 @@ class C05(PropertyCheck):
         "QipVerif.C05.schedule_den_C_full_fwd",
         "QipVerif.C05.schedule_den_C_tree",
         "QipVerif.C05.schedule_den_C_tree_circuit",
+        "QipVerif.C05.method_tests_uniform",
+        "QipVerif.C05.method_contract",
+        "QipVerif.C05.method_not_alap_is_asap",
+        "QipVerif.C05.apply_constraint_is_conjunction",
+        "QipVerif.C05.default_constraints",
+        "QipVerif.C05.cycles_partition_cons",
+        "QipVerif.C05.cycle_respects_constraints",
+        "QipVerif.C05.cycle_disjoint_cons",
+        "QipVerif.C05.order_respected_cons",
+        "QipVerif.C05.schedule_den_C_full_cons",
+        "QipVerif.C05.C05_constraints_absent",
     ]
     level_text = ("Lean 4 theorems about the model of the gate scheduler, for every gate list, ASAP and ALAP, permutation "
                   "allowed or not, and every permutation-valued re-ordering oracle of the scheduling pass (covers random_shuffle, "
@@ -163,7 +182,17 @@ class C05(PropertyCheck):
                   "the code on every check as a regression test of the fixed finding. The model is tied to the code by an exact "
                   "correspondence of cycles lists, cycle indices and dependency edges (exhaustive short sequences, random sequences "
                   "up to length 14 on 5 qubits, recorded shuffles, repeat_num, histories of up to 6 calls on one Scheduler object) "
-                  "and an exhaustive comparison of commutation_rules -- model rule and regenerated rule -- over its abstraction.")
+                  "and an exhaustive comparison of commutation_rules -- model rule and regenerated rule -- over its abstraction. "
+                  "CONSTRUCTOR ARGUMENTS: the three string literals self.method is compared with in Scheduler.schedule and the body of "
+                  "apply_constraint are regenerated too; method_tests_uniform / method_contract / method_not_alap_is_asap: the ALAP "
+                  "branch is taken at each of the three places iff method == 'ALAP', every other argument (other casing, other string, "
+                  "None, a number) is ASAP at all three places; apply_constraint_is_conjunction; for EVERY list of constraint functions "
+                  "(model: the library's qubit_constraint, allow-all, forbid an ordered index pair, forbid equal names; 0-3 functions) "
+                  "cycles_partition_cons, order_respected_cons, schedule_den_C_full_cons and cycle_respects_constraints (inside a cycle "
+                  "every later member was approved against every earlier one by every function) hold, cycle_disjoint_cons holds whenever "
+                  "qubit_constraint is in the list (first, last, anywhere), and C05_constraints_absent shows that without it two commuting "
+                  "gates sharing a qubit are put into one cycle; the correspondence and the oracles run 21 method values x 21 constraint "
+                  "lists.")
     level_note = ("Full strength on the repaired tree: partition, exclusivity, order and same-unitary are theorems without side "
                   "conditions. What remains a hypothesis of the unitary clause is what each position IS (GateOK: which operator a gate "
                   "object denotes): for IR gates the semantics semD (exact Z[zeta16] library / generated rotation matrices, tied to the "
@@ -178,9 +207,9 @@ class C05(PropertyCheck):
                  "commutation rule and self-commuting set regenerated from the source + model/implementation correspondence")
     trusted_base = [
         "Lean 4.33 kernel; axioms propext, Classical.choice, Quot.sound",
-        "py/translate/sched.py (ast translator of commutation_rules, _SELF_COMMUTING_GATES and the conflict-edge flag into "
-        "Gen/SchedRule.lean; anything outside its statement language is refused; the regenerated rule is compared with the code "
-        "on every check)",
+        "py/translate/sched.py (ast translator of commutation_rules, _SELF_COMMUTING_GATES, the conflict-edge flag, the three "
+        "tests of self.method and apply_constraint into Gen/SchedRule.lean; anything outside its statement language is refused; "
+        "the regenerated rule is compared with the code on every check)",
         "py/props/sched_common.py, py/props/c05.py (harness; shadows `set` (ascending iteration) and `shuffle` "
         "(recording) in the scheduler module's namespace, /repo itself is untouched)",
         "Python's list.sort is a stable sort for the total preorder _compare_priority (modelled by a stable insertion sort)",
@@ -196,8 +225,12 @@ class C05(PropertyCheck):
         "the theorem: for such objects the rule compares sorted target lists that do not determine the operator",
         "user-defined gates do not reuse a name of _SELF_COMMUTING_GATES or CNOT / X / RX / Z / RZ (QubitCircuit.user_gates takes "
         "precedence over the library for such a name, the scheduler only sees the name)",
-        "Scheduler.schedule is a function of its arguments, the two constructor settings and the shuffle outcomes (the model is "
-        "stateless); checked by histories of several calls on one Scheduler object",
+        "Scheduler.schedule is a function of its arguments, the constructor settings and the shuffle outcomes (the model is "
+        "stateless); checked by histories of several calls on one Scheduler object, also on the same circuit / list object "
+        "edited in place between the calls",
+        "user constraint functions are modelled for four kinds (qubit_constraint, allow everything, forbid one ordered pair of "
+        "indices, forbid equal names); the *_cons theorems hold for any relation, the correspondence covers these kinds; qubit "
+        "exclusivity is provided by qubit_constraint and is claimed only when it is among the functions",
         "schedule_den_partial / schedule_den_C (old rule): H1 / H2 are explicit hypotheses; H2 is false for the old rule "
         "(C05_counterexample_den)",
     ]
@@ -217,7 +250,7 @@ class C05(PropertyCheck):
         lines, impl, cases = [], [], []
         chain = self._chain
 
-        def chained(specs, N, method, perm, shuffle, repeat, sch, hist, store, oid, as_circuit, edits):
+        def chained(specs, N, method, perm, shuffle, repeat, sch, hist, store, oid, as_circuit, edits):  # noqa: E306
             """idx call (+ cycles call) on the persistent object `oid` of the history"""
             log = sc.ShuffleLog(rng) if (shuffle or repeat) else None
             c1 = {"kind": "gate", "N": N, "gates": specs, "shuf": None, "repeat": repeat, "cycles": False,
@@ -233,12 +266,12 @@ class C05(PropertyCheck):
                 hist.append(c2)
             return st, idx, cyc, shuf, list(hist)
 
-        for specs, N, method, perm, shuffle, repeat in batch:
-            fields = [fields_of(s) + (sc.DEN,) for s in specs]
+        for specs, N, method, perm, shuffle, repeat, *rest in batch:
+            cons = rest[0] if rest else None
             derived = None
             if specs and rng.random() < 0.35:
-                sch, hist = chain.get(method, perm, 4)
-                store, oid, as_circuit = chain.objects(method, perm), chain.new_id(), rng.random() < 0.4
+                sch, hist = chain.get(method, perm, 4, cons)
+                store, oid, as_circuit = chain.objects(method, perm, cons), chain.new_id(), rng.random() < 0.4
                 r = chained(specs, N, method, perm, shuffle, repeat, sch, hist, store, oid, as_circuit, [])
                 if r[0] == "ok" and not repeat and rng.random() < 0.5:
                     if N not in self._pools:
@@ -254,41 +287,46 @@ class C05(PropertyCheck):
                 if repeat:
                     kw["repeat_num"] = repeat
                 obj = sc.make_circuit(N, specs) if rng.random() < 0.15 else gates
-                st, idx = sc.impl_schedule(obj, method, perm, log, **kw)
+                st, idx = sc.impl_schedule(obj, method, perm, log, cons=cons, **kw)
                 shuf = log.log if log else None
                 cyc = None
                 if st == "ok" and not repeat:
                     log2 = sc.ShuffleLog(replay=log.log) if log else None     # the cycles list itself, same shuffles
-                    st, cyc = sc.impl_schedule(obj, method, perm, log2, return_cycles_list=True, **kw)
+                    st, cyc = sc.impl_schedule(obj, method, perm, log2, cons=cons, return_cycles_list=True, **kw)
                 r = (st, idx, cyc, shuf, None)
             for sp, rr, rep, edited in ((specs, r, repeat, False),) + (((derived[0], derived[1], 0, True),) if derived else ()):
-                cases.append((sp, N, method, perm, shuffle, rep, edited))
+                cases.append((sp, N, method, perm, shuffle, rep, edited, cons))
                 impl.append(rr)
                 if rep and rr[3] is not None:
                     lines.append(None)            # several model runs, issued below
                 else:
-                    lines.append(sc.model_line(method, perm, [fields_of(x) + (sc.DEN,) for x in sp], rr[3]))
+                    lines.append(sc.model_line(method, perm, [fields_of(x) + (sc.DEN,) for x in sp], rr[3], cons))
         outs = ctx.driver("drv_sched").run([l for l in lines if l is not None])
         it = iter(outs)
-        for (specs, N, method, perm, shuffle, repeat, edited), line, (st, idx, cyc, shuf, hist) in zip(cases, lines, impl):
+        for (specs, N, method, perm, shuffle, repeat, edited, cons), line, (st, idx, cyc, shuf, hist) in zip(cases, lines, impl):
             used = [sc.used_of(s) for s in specs]
             nontriv = any(used[i] & used[j] for i in range(len(specs)) for j in range(i + 1, len(specs)))
             inp = {"gates": [[s[0], s[1], s[2]] for s in specs], "method": method, "perm": perm, "shuf": shuf,
                    "repeat": repeat}
+            if cons is not None:
+                inp["constraint_functions"] = cons
             if hist is not None:
                 inp["calls_before_on_this_scheduler"] = [
                     [[g[0], g[1], g[2]] for g in c["gates"]] + [c["cycles"], c["repeat"], c["obj"], c["edits"]]
                     for c in hist[:-1 if repeat else -2]]
             res.case(inp, nontrivial=nontriv,
-                     tags=[tag, f"len={len(specs)}", f"method={method}", f"perm={int(perm)}",
+                     tags=[tag, f"len={len(specs)}", f"method={method!r}", f"perm={int(perm)}",
                            f"shuffle={int(bool(shuffle or repeat))}",
-                           "history=%d" % (0 if hist is None else min(len(hist), 8))]
+                           "history=%d" % (0 if hist is None else min(len(hist), 8)),
+                           "constraints=" + ("default" if cons is None else "+".join(c if isinstance(c, str) else "f" for c in cons) or "none")]
                      + (["edited-in-place"] if edited else []))
             if hist is None:
                 w = {"N": N, "gates": specs, "method": method, "perm": perm, "shuf": shuf, "repeat": repeat,
                      "scope": "covered"}
             else:
                 w = {"history": hist, "method": method, "perm": perm, "scope": "covered"}
+            if cons is not None:
+                w["cons"] = cons
             mm = used_mismatch(specs)
             if mm:
                 res.disagree(inp, mm[0], mm[1], "used_qubits of an instruction", w)
@@ -317,7 +355,7 @@ class C05(PropertyCheck):
         rest, best, best_len = list(shuf), [0], 4294967296
         drv = ctx.driver("drv_sched")
         for _ in range(repeat):
-            m = sc.parse_model(drv.run([sc.model_line(method, perm, fields, rest)])[0])
+            m = sc.parse_model(drv.run([sc.model_line(method, perm, fields, rest, w.get("cons"))])[0])
             if m["status"] != "ok":
                 res.disagree(inp, m["status"], st, "verdict (repeat_num)", w)
                 return
@@ -496,6 +534,24 @@ class C05(PropertyCheck):
             shapes = shapes[:105] + rng.sample(shapes[105:], 600)
         batch = [(specs_from(seq), 2, m, p, k % 5 == 0, 0) for k, seq in enumerate(shapes) for m, p in settings]
         self._flush(ctx, res, batch, "interleaved")
+        # constructor arguments: every `method` value x every constraint list on fixed circuits, then random ----------
+        batch = []
+        for seq in self.CTOR_CIRCUITS:
+            for m in sc.METHODS:
+                for cons in sc.CONS_LISTS:
+                    for p in (True, False):
+                        batch.append((specs_from(seq), 3, m, p, False, 0, cons))
+        P3 = sc.placements(3, sc.FEW_NAMES)
+        for k in range(6000 if ctx.thorough else 1200):
+            specs = specs_from([rng.choice(P3) for _ in range(rng.randint(2, 8))])
+            batch.append((specs, 3, rng.choice(sc.METHODS), rng.random() < 0.8, rng.random() < 0.3,
+                          rng.choice([0, 0, 0, 0, 2]), rng.choice(sc.CONS_LISTS)))
+        self._flush(ctx, res, batch, "constructor")
+        ans = ctx.driver("drv_sched").run(["methodtests"])[0]
+        res.notes.append(f"constructor arguments: {len(sc.METHODS)} method values (strings the code compares with {ans[3:]!r} at three "
+                         f"places; everything else must behave as ASAP) x {len(sc.CONS_LISTS)} constraint function lists (0-3 "
+                         "functions, qubit_constraint first / last / in the middle / absent) exhaustively on "
+                         f"{len(self.CTOR_CIRCUITS)} circuits, both permutation settings, and at random")
         # degenerate / malformed -----------------------------------------------------------
         batch = [([], 2, m, p, False, 0) for m, p in settings]
         batch += [(specs_from([("GLOBALPHASE", [], [])] * k), 2, m, p, False, 0) for k in (1, 2) for m, p in settings]
@@ -527,9 +583,9 @@ class C05(PropertyCheck):
                 res.disagree(inp, m.get("edges"), e, "dependency edges", None)
 
     # ----------------------------------------------------------------------------------
-    def _judge(self, specs, N, perm, cycles, scope):
+    def _judge(self, specs, N, perm, cycles, scope, cons=None):
         """the property on one returned cycles list -> (fails, detail)"""
-        bad = cycles_checks(specs, cycles, perm)
+        bad = cycles_checks(specs, cycles, perm, cons)
         if bad:
             return True, bad
         if scope == "covered" and perm:
@@ -549,8 +605,8 @@ class C05(PropertyCheck):
     def _replay_history(self, ctx, w):
         """several schedule() calls on ONE Scheduler object; the property is evaluated on every gate-mode result"""
         _, _, Scheduler, _, _ = sc._mods()
-        method, perm = w["method"], w["perm"]
-        sch = Scheduler(method, allow_permutation=perm)
+        method, perm, cons = w["method"], w["perm"], w.get("cons")
+        sch = sc.new_scheduler(method, perm, cons)
         n = len(w["history"])
         store = {}
         for k, call in enumerate(w["history"]):
@@ -566,7 +622,7 @@ class C05(PropertyCheck):
                 continue
             if st != "ok":
                 return True, f"call {k + 1} of {n} on one Scheduler object: schedule raised: {st}"
-            f, d = self._judge(specs, call["N"], perm, sc.cycles_of(call, r), w.get("scope"))
+            f, d = self._judge(specs, call["N"], perm, sc.cycles_of(call, r), w.get("scope"), cons)
             if f:
                 return True, (f"call {k + 1} of {n} on one Scheduler object (circuit "
                               f"{[[g[0], g[1], g[2]] for g in specs]}): " + d)
@@ -576,16 +632,16 @@ class C05(PropertyCheck):
         if "history" in w:
             return self._replay_history(ctx, w)
         specs, N, method, perm = w["gates"], w["N"], w["method"], w["perm"]
-        shuf, repeat = w.get("shuf"), w.get("repeat", 0)
+        shuf, repeat, cons = w.get("shuf"), w.get("repeat", 0), w.get("cons")
         if not specs:
-            st, r = sc.impl_schedule([], method, perm)
+            st, r = sc.impl_schedule([], method, perm, cons=cons)
             return (st != "ok" or r != []), f"empty input -> {st} {r}"
         if all(not sc.used_of(s) for s in specs):
             return False, "no instruction uses a qubit (the code raises on max() of an empty set; not a gate circuit)"
         qc = sc.make_circuit(N, specs)
         if repeat:
             log = sc.ShuffleLog(replay=shuf) if shuf is not None else sc.ShuffleLog(random.Random(w.get("shuffle_seed", 0)))
-            st, idx = sc.impl_schedule(qc, method, perm, log, repeat_num=repeat)
+            st, idx = sc.impl_schedule(qc, method, perm, log, cons=cons, repeat_num=repeat)
             if st != "ok":
                 return True, f"schedule raised: {st}"
             cycles = [[i for i, c in enumerate(idx) if c == k] for k in range(max(idx) + 1)]
@@ -595,11 +651,19 @@ class C05(PropertyCheck):
                 log = sc.ShuffleLog(replay=shuf)
             elif w.get("shuffle_seed") is not None:
                 log = sc.ShuffleLog(random.Random(w["shuffle_seed"]))
-            st, cycles = sc.impl_schedule(qc, method, perm, log, return_cycles_list=True,
+            st, cycles = sc.impl_schedule(qc, method, perm, log, cons=cons, return_cycles_list=True,
                                           random_shuffle=log is not None)
             if st != "ok":
                 return True, f"schedule raised: {st}"
-        return self._judge(specs, N, perm, cycles, w.get("scope"))
+            if w.get("also_indices"):        # the other gate-level output path (gate_cycle_indices)
+                log3 = sc.ShuffleLog(replay=log.log) if log is not None else None
+                st3, idx = sc.impl_schedule(qc, method, perm, log3, cons=cons, random_shuffle=log is not None)
+                if st3 != "ok":
+                    return True, f"schedule (gate_cycle_indices) raised: {st3}"
+                by_idx = [sorted(i for i, c in enumerate(idx) if c == k) for k in range(max(idx) + 1)]
+                if by_idx != [sorted(c) for c in cycles]:
+                    return True, f"gate_cycle_indices {list(idx)} do not describe the returned cycles {cycles}"
+        return self._judge(specs, N, perm, cycles, w.get("scope"), cons)
 
     HIST_POOL = [("CNOT", [1], [0]), ("CNOT", [2], [0]), ("CNOT", [0], [1]), ("SNOT", [0], []), ("X", [1], []),
                  ("RZ", [0], []), ("RX", [0], []), ("Z", [1], []), ("SWAP", [0, 1], [])]
@@ -655,7 +719,27 @@ class C05(PropertyCheck):
             yield {"N": 2, "gates": specs_from(seq), "method": "ASAP", "perm": True, "shuf": None, "shuffle_seed": len(seq),
                    "repeat": 0, "scope": "covered"}
 
+    CTOR_CIRCUITS = [
+        [("X", [0], []), ("SNOT", [0], [])],
+        [("CNOT", [1], [0]), ("CNOT", [2], [0])],
+        [("CNOT", [1], [0]), ("CNOT", [2], [0]), ("SNOT", [2], [])],
+        [("RX", [0], []), ("IDLE", [0], []), ("RZ", [0], [])],
+        [("CZ", [1], [0]), ("CZ", [2], [0]), ("CZ", [2], [1]), ("X", [0], [])],
+        [("SNOT", [1], []), ("CNOT", [1], [0]), ("CNOT", [2], [0]), ("RZ", [0], []), ("SWAP", [1, 2], [])],
+    ]
+
+    def _constructor_witnesses(self):
+        """every kind of constructor argument: all `method` values x all constraint lists on a few small circuits"""
+        for seq in self.CTOR_CIRCUITS:
+            for m in sc.METHODS:
+                for cons in sc.CONS_LISTS:
+                    if m in ("ASAP", "ALAP") and cons is None:
+                        continue
+                    yield {"N": 3, "gates": specs_from(seq), "method": m, "perm": True, "shuf": None, "repeat": 0,
+                           "scope": "covered", "cons": cons, "also_indices": True}
+
     def _systematic(self):
+        yield from self._constructor_witnesses()
         yield from self._interleaved()
         P = sc.placements(3)
         for L in (1, 2):
@@ -672,9 +756,14 @@ class C05(PropertyCheck):
             names = rng.sample(sc.FEW_NAMES, 4)
             P = sc.placements(N, [n for n in names if sum(sc.LIBRARY[n][:2]) <= N] or ["X"])
         specs = specs_from([rng.choice(P) for _ in range(rng.randint(2, 12))])
-        return {"N": N, "gates": specs, "method": rng.choice(["ASAP", "ALAP"]), "perm": rng.random() < 0.75,
-                "shuf": None, "shuffle_seed": rng.choice([None, rng.randrange(10 ** 6)]),
-                "repeat": rng.choice([0, 0, 0, 2]), "scope": "covered"}
+        w = {"N": N, "gates": specs, "method": rng.choice(["ASAP", "ALAP"]), "perm": rng.random() < 0.75,
+             "shuf": None, "shuffle_seed": rng.choice([None, rng.randrange(10 ** 6)]),
+             "repeat": rng.choice([0, 0, 0, 2]), "scope": "covered"}
+        if rng.random() < 0.15:
+            w["method"] = rng.choice(sc.METHODS_ODD)
+        if rng.random() < 0.25:
+            w["cons"] = rng.choice(sc.CONS_LISTS)
+        return w
 
     def oracle_search(self, ctx, budget_s):
         t0 = time.time()
@@ -716,6 +805,12 @@ class C05(PropertyCheck):
                        "scope": "covered"}
 
     def oracle_always(self, ctx):
+        # constructor arguments: every kind of `method`, user constraint function lists
+        ctor = list(self._constructor_witnesses())
+        for w in ctor[:len(sc.METHODS) * len(sc.CONS_LISTS)] + ctx.rng.sample(ctor, 400):
+            f, d = self.oracle_replay(ctx, w)
+            if f:
+                yield w, d
         for w in self._family_witnesses():
             f, d = self.oracle_replay(ctx, w)
             if f:
